@@ -53,3 +53,26 @@ package alert
 //@   requires a != nil
 //@   ensures [valid-iff] (result == nil) == (a.StartsAt != 0 && (a.EndsAt == 0 || a.EndsAt >= a.StartsAt) && len(a.Labels) > 0 && lsOK(a.Labels) && lsOK(a.Annotations))
 //@   assigns nothing
+
+// ---- C20 / C05: the exposable form handed to templates, webhooks and notifiers. One copy per alert, in order, with
+// the alert's own labels, annotations, start and generator URL; the end time is kept exactly when the alert is
+// resolved now (so a past end - explicit or set by resolve_timeout - shows the alert as resolved) and blanked otherwise.
+//@ uf resolvedNowA(*Alert) bool
+//@ func Alerts
+//@   props C20 C05
+//@   assumes forall i int :: 0 <= i && i < len(alerts) ==> alerts[i] != nil
+//@   after call Alert).Resolved$ assume res0 == resolvedNowA(alerts[rangeindex1 + 1]) && (arg0.EndsAt == 0 ==> !res0) && (arg0.EndsAt != 0 && arg0.EndsAt <= clock() ==> res0)
+//@   ensures [one-copy-per-alert-in-order] len(result) == len(alerts) && (forall i int :: 0 <= i && i < len(result) ==> result[i] != nil && fresh(result[i]))
+//@   ensures [the-alert_s-own-content] forall i int :: 0 <= i && i < len(result) ==> result[i].Labels == alerts[i].Labels && result[i].Annotations == alerts[i].Annotations
+//@             && result[i].StartsAt == alerts[i].StartsAt && result[i].GeneratorURL == alerts[i].GeneratorURL
+//@   ensures [end-kept-exactly-when-resolved-now] forall i int :: 0 <= i && i < len(result) ==> result[i].EndsAt == (resolvedNowA(alerts[i]) ? alerts[i].EndsAt : 0)
+//@   ensures [a-past-end-shows-as-resolved] forall i int :: 0 <= i && i < len(result) && alerts[i].EndsAt != 0 && alerts[i].EndsAt <= old(clock()) ==> result[i].EndsAt == alerts[i].EndsAt
+//@   ensures [copies-are-distinct] forall i int, j int :: 0 <= i && i < j && j < len(result) ==> result[i] != result[j]
+//@   ensures [the-stored-alerts-are-untouched] forall i int :: 0 <= i && i < len(alerts) ==> alerts[i].EndsAt == old(alerts[i].EndsAt)
+//@   loop 1 invariant rangeindex < len(alerts) && fresh(res) && len(res) == rangeindex + 1 && clock() >= old(clock())
+//@   loop 1 invariant forall i int :: 0 <= i && i < len(res) ==> res[i] != nil && fresh(res[i]) && res[i].Labels == alerts[i].Labels && res[i].Annotations == alerts[i].Annotations
+//@             && res[i].StartsAt == alerts[i].StartsAt && res[i].GeneratorURL == alerts[i].GeneratorURL && res[i].EndsAt == (resolvedNowA(alerts[i]) ? alerts[i].EndsAt : 0)
+//@   loop 1 invariant forall i int :: 0 <= i && i < len(res) && alerts[i].EndsAt != 0 && alerts[i].EndsAt <= old(clock()) ==> resolvedNowA(alerts[i])
+//@   loop 1 invariant forall i int, j int :: 0 <= i && i < j && j < len(res) ==> res[i] != res[j]
+//@   loop 1 invariant forall i int :: 0 <= i && i < len(alerts) ==> alerts[i].EndsAt == old(alerts[i].EndsAt)
+//@   assigns nothing
